@@ -245,10 +245,19 @@ inline std::string classify_sanitizer_log(const std::string &log, int status) {
     if (!k.empty()) return "tsan:" + k;
     size_t p = log.find("runtime error: ");
     if (p != std::string::npos) {
-        std::string rest = log.substr(p + 15, 60);
-        std::string cls = "ubsan:";
-        for (char c : rest) { if (c == '\n') break; cls += (isalnum((unsigned char) c) ? c : '_'); if (cls.size() > 40) break; }
-        return cls;
+        // leading words of the message up to the first token that carries a digit (addresses and values vary)
+        std::string rest = log.substr(p + 15, 80), cls = "ubsan:", word; int words = 0; bool stop = false;
+        for (size_t k = 0; k <= rest.size() && !stop; k++) {
+            char c = k < rest.size() ? rest[k] : ' ';
+            if (c == '\n') { c = ' '; stop = true; }
+            if (isalnum((unsigned char) c)) { word += c; continue; }
+            if (word.empty()) continue;
+            bool digit = false; for (char d : word) if (isdigit((unsigned char) d)) digit = true;
+            if (digit) break;
+            cls += (words ? "_" : "") + word; word.clear();
+            if (++words >= 6) break;
+        }
+        return words ? cls : cls + "error";
     }
     if (WIFSIGNALED(status)) {
         int sig = WTERMSIG(status);
